@@ -496,6 +496,7 @@ def s4(chk: Check, proj: Project, m) -> None:
         chk.undecided("S4", "dependencies:render_dependencies:roles", m.loc(f), f"content / js / helper-result variables not identified ({R})")
         return
     n = 0
+    enc_call: Optional[ast.Call] = None
     for st in stmts(f):
         tg = [norm(t) for t, _v in assign_targets(st)]
         if W not in tg:
@@ -514,16 +515,32 @@ def s4(chk: Check, proj: Project, m) -> None:
             chk.holds("S4", key, m.loc(st), "marker harvest (substitution by the empty string, C04-S2)", nontrivial=False)
         elif t.startswith("PLACEHOLDER_REGEX.sub(") and t.endswith(f", {W})"):
             chk.holds("S4", key, m.loc(st), "placeholder substitution", nontrivial=False)
-        elif t == f"{H}.encode()":
+        elif isinstance(st.value, ast.Call) and isinstance(st.value.func, ast.Attribute) and st.value.func.attr == "encode" and norm(st.value.func.value) == H:
             ok = any(pol and t2 == f"{H} is not None" for t2, pol in atoms)
-            chk.ob("S4", key, m.loc(st), ok, "result of the default-location insertion helper")
+            chk.ob("S4", key.split(" = ")[0] + " = <helper result>.encode(..)", m.loc(st), ok, "result of the default-location insertion helper")
+            enc_call = st.value
         else:
             chk.violated("S4", key, m.loc(st), f"`{short(st)}` transforms the document in a way that is not a marker removal / placeholder substitution / insertion: other bytes of the input can change")
     chk.floor("S4", n, 5)
     # the insertion helper gets the whole decoded content
     ic = calls(f, "_insert_js_css_to_default_locations")
-    ok = bool(ic) and ic[0].args and norm(ic[0].args[0]) == f"{W}.decode()"
+    a0 = ic[0].args[0] if ic and ic[0].args else None
+    ok = isinstance(a0, ast.Call) and isinstance(a0.func, ast.Attribute) and a0.func.attr == "decode" and norm(a0.func.value) == W
     chk.ob("S4", "dependencies:render_dependencies:helper-input", m.loc(ic[0]) if ic else m.loc(f), ok, "the insertion helper receives the whole (decoded) content")
+    # bytes in, the same bytes out - for EVERY byte string: the decode / encode pair around the helper must round-trip input that
+    # is not valid in the codec (a latin-1 page passing through the middleware)
+    if ok and enc_call is not None:
+        def _codec(c: ast.Call) -> Tuple[str, Optional[str]]:
+            cod = c.args[0].value if c.args and isinstance(c.args[0], ast.Constant) else (kwarg(c, "encoding").value if isinstance(kwarg(c, "encoding"), ast.Constant) else "utf-8")
+            er = c.args[1] if len(c.args) > 1 else kwarg(c, "errors")
+            return str(cod).lower().replace("_", "-"), (er.value if isinstance(er, ast.Constant) else None)
+        dc, de = _codec(a0)
+        ec, ee = _codec(enc_call)
+        lossless = de in ("surrogateescape",) and ee == de and dc == ec
+        single_byte = dc == ec and dc in ("latin-1", "latin1", "iso-8859-1") and de is None and ee is None
+        chk.ob("S4", "dependencies:render_dependencies:decode-encode-round-trips-any-bytes", m.loc(a0), lossless or single_byte,
+               f"decode({dc!r}, errors={de!r}) / encode({ec!r}, errors={ee!r}) restore every input byte" if lossless or single_byte else
+               f"`{short(a0)}` is a strict decode: bytes that are not valid {dc.upper()} (render_dependencies(b'caf\\xe9</body>'), a latin-1 or otherwise encoded text/html response through the middleware) raise UnicodeDecodeError in document mode whenever a placeholder kind is absent - with both placeholders present the same bytes pass")
     # replacement variables
     orm = next((x for x in body_walk(f) if isinstance(x, ast.FunctionDef) and x.name == "on_replace_match"), None)
     if orm is None:
